@@ -629,6 +629,8 @@ void QXmppOutgoingClient::handleStart()
 
     // reset active manager (e.g. authentication)
     d->listener = this;
+    // a bind2 result belongs to the stream it was received on
+    d->bind2Bound.reset();
 
     d->c2sStreamManager.onStreamStart();
 
